@@ -5,6 +5,7 @@ import (
 	"errors"
 	"fmt"
 	"io"
+	"net"
 	"sync"
 	"time"
 
@@ -21,7 +22,7 @@ func init() {
 		Level: "exploration",
 		Rule: "two families: (a) COMPLETE enumeration of the close codes that must be accepted (1000-1003, 1007-1011, 3000-4999) x reason length {none, 0, 1, 123 bytes UTF-8} x role, each after a short prefix; " +
 			"(b) seeded streams from the independent encoder with ping/pong/close at every kind of position (before, between and after fragments, back to back, in the part the application abandons) x role x compression x read program x handler mode (default handlers | custom handler failing at the k-th control frame); " +
-			"(c) every tenth case: pings arrive while other goroutines call WriteControl and write data through a dawdling transport; every pong on the wire must carry the payload of exactly one received ping; " +
+			"a third of the client-role executions build the connection with the real Dialer.Dial, the stream glued behind the 101 reply; (c) every tenth case: pings arrive while other goroutines call WriteControl and write data through a dawdling transport; every pong on the wire must carry the payload of exactly one received ping; " +
 			"distinct = enumerated cell or hash(stream, execution); non-trivial = stream holds a control frame between fragments of a message, or a close",
 		Variants: core.PlainOnly,
 		Cases: func(tier, variant string) int {
@@ -31,7 +32,7 @@ func init() {
 			return c08EnumCases + 12000
 		},
 		Run:      runC08,
-		Required: []string{"handler_calls_checked", "pongs_checked", "close_echoes_checked", "control_between_fragments", "concurrent_pong_runs"},
+		Required: []string{"handler_calls_checked", "pongs_checked", "close_echoes_checked", "control_between_fragments", "concurrent_pong_runs", "connections_built_by_dial_with_frames_behind_the_reply"},
 		Assumptions: []string{
 			"pong and close echoes of the default handlers are demanded because nothing else holds the write lock in these single-goroutine executions",
 			"byte-level ordering of handler calls relative to delivered data is judged for uncompressed messages; for compressed messages at message granularity",
@@ -163,8 +164,45 @@ func c08ExecH(ctx *core.Ctx, out *core.Out, st *Stream, ex rdExec, failAt int, h
 		}
 		bytesIn = append(append([]byte(nil), st.Bytes...), wire.Encode([]wire.Frame{mk(9, markerPing), mk(1, markerText)})...)
 	}
-	nc := xport.New(xport.Rechunk(bytesIn, ex.Chunk, r))
-	c := ws.VerifNewConn(nc, ex.Server, ex.RB, 256, nil, nil, ex.Comp)
+	chunks := xport.Rechunk(bytesIn, ex.Chunk, r)
+	var nc *xport.Conn
+	var c *ws.Conn
+	head := 0
+	if viaDial := !ex.Server && ctx.Idx%3 == 1; viaDial {
+		// a client connection built by the real Dialer.Dial: the frames follow the
+		// server's 101 reply directly, the first chunk in the same transport read
+		nc = xport.New(nil)
+		extra := ""
+		if ex.Comp {
+			extra = "Sec-WebSocket-Extensions: " + deflateParams + "\r\n"
+		}
+		nc.OnWrite = func(all []byte) []xport.Chunk {
+			if i := bytes.Index(all, []byte("\r\n\r\n")); i >= 0 && head == 0 {
+				head = i + 4
+				reply := good101(all[:head], extra)
+				if len(chunks) == 0 {
+					return []xport.Chunk{{Data: reply}}
+				}
+				glued := append([]xport.Chunk{{Data: append(reply, chunks[0].Data...)}}, chunks[1:]...)
+				return glued
+			}
+			return nil
+		}
+		d := &ws.Dialer{EnableCompression: ex.Comp, ReadBufferSize: ex.RB, WriteBufferSize: 256, HandshakeTimeout: 30 * time.Second}
+		d.NetDial = func(network, addr string) (net.Conn, error) { return nc, nil }
+		var err error
+		c, _, err = d.Dial("ws://c08.example/x", nil)
+		if err != nil {
+			d := map[string]interface{}{"exec": ex, "stream": st.Summary()}
+			out.Violate("C08:dial-failed", "Dial over a scripted transport with a valid 101 reply failed: "+err.Error(), d)
+			return false
+		}
+		nc.OnWrite = nil
+		out.Count("connections_built_by_dial_with_frames_behind_the_reply", 1)
+	} else {
+		nc = xport.New(chunks)
+		c = ws.VerifNewConn(nc, ex.Server, ex.RB, 256, nil, nil, ex.Comp)
+	}
 	switch hist {
 	case 1:
 		if err := c.WriteControl(ws.CloseMessage, ws.FormatCloseMessage(1001, "leaving"), time.Time{}); err != nil {
@@ -358,7 +396,7 @@ func c08ExecH(ctx *core.Ctx, out *core.Out, st *Stream, ex rdExec, failAt int, h
 		}
 		return true
 	}
-	written, rest, werr := wire.Decode(nc.Written())
+	written, rest, werr := wire.Decode(nc.Written()[head:])
 	if werr != nil || len(rest) > 0 {
 		return fail("write-log", "bytes written back do not decode", log)
 	}
